@@ -11,7 +11,8 @@ EXTENDS Integers, Sequences, FiniteSets, TLC
 Excluded == {"lost+found", ".DS_Store", "System Volume Information"}
 \* mutation kinds applied to a faithful copy, and whether CompareFS must notice them
 RealDiffs == {"byte-first", "byte-last", "byte-at-32k", "longer", "shorter", "missing-file", "extra-file",
-              "file-for-dir", "dir-for-file", "missing-empty-dir", "extra-empty-dir"}
+              "file-for-dir", "dir-for-file", "missing-empty-dir", "extra-empty-dir",
+              "extra-after-excluded-file", "extra-dir-after-excluded-file"}   \* an extra entry that sorts after an excluded-name FILE of the same directory
 Harmless  == {"none", "extra-excluded-file", "extra-excluded-dir"}
 Dims == [src : {"osdir", "fat32", "ext4", "iso", "squashfs", "shortreads"},
          dst : {"fat12", "fat16", "fat32", "ext4"},
